@@ -286,7 +286,8 @@ O(id='BIT_STRING_constraint', props=['C08'], kind='width', entry='h_BIT_STRING_c
   unwind=4, bound='every (size, bits_unused, buf) combination (loop-free)', min_props=10, harness='harness/h_bitstring_constraint.c', units=[SK + 'BIT_STRING.c'])
 
 # ---------------------------------------------------------------- C09: constraint interval algebra
-CR = dict(harness='harness/h_crange.c', units=['libasn1fix/asn1fix_crange.c'], incdirs=['libasn1fix', 'libasn1parser', 'libasn1common', 'libasn1print', 'libasn1compiler'])
+CR = dict(harness='harness/h_crange.c', units=['libasn1fix/asn1fix_crange.c'], incdirs=['libasn1fix', 'libasn1parser', 'libasn1common', 'libasn1print', 'libasn1compiler'],
+          defines=['HAVE_CONFIG_H'], native=False)   # asn1c_integer_t = __int128 as in the real build
 O(id='_edge_compare', props=['C09'], kind='width', entry='h_edge_compare', functions=['_edge_compare'], proves=['_edge_compare'], unwind=2,
   bound='all triples of edges, 128-bit values (loop-free)', min_props=5, **CR)
 O(id='_range_overlap', props=['C09'], kind='width', entry='h_range_overlap', functions=['_range_overlap'], proves=['_range_overlap'], unwind=2,
@@ -296,6 +297,12 @@ O(id='_range_split', props=['C09'], kind='width', entry='h_range_split', functio
   bound='all pairs of well-formed simple ranges with rb inside the intmax_t window, 128-bit values; allocation succeeds (the function asserts on failure)',
   trusted=['qsort: stub (stubs/qsort3.c)'], min_props=30, timeout=900, **CR)
 
+O(id='_range_union.p2', props=['C09', 'C08'], kind='bounded', entry='h_range_union', functions=['_range_union', '_range_remove_element', '_range_compare'],
+  stubs=['stubs/qsort3.c'], unwind=6, cbmc=['--no-malloc-may-fail', '--memory-leak-check'],
+  bound='a union of two arbitrary simple ranges (128-bit values within +-2^100)', trusted=['qsort: stub (stubs/qsort3.c)'], min_props=30, timeout=900, **dict(CR, defines=['VF_NP=2', 'HAVE_CONFIG_H']))
+O(id='_range_union.p3', props=['C09', 'C08'], kind='bounded', entry='h_range_union', functions=['_range_union', '_range_remove_element', '_range_compare'],
+  stubs=['stubs/qsort3.c'], unwind=6, cbmc=['--no-malloc-may-fail', '--memory-leak-check'], tier='experimental',
+  bound='a union of three arbitrary simple ranges', trusted=['qsort: stub (stubs/qsort3.c)'], min_props=30, timeout=2400, **dict(CR, defines=['VF_NP=3', 'HAVE_CONFIG_H']))
 O(id='_range_intersection.simple', props=['C09'], kind='bounded', entry='h_range_intersection',
   functions=['_range_intersection', '_range_split', '_range_remove_element', '_range_insert'], stubs=['stubs/qsort3.c'], unwind=8,
   cbmc=['--no-malloc-may-fail', '--memory-leak-check'], bound='two simple (one-interval) operands, 128-bit values, PER rules (is_oer=0, no strict edge check)',
